@@ -576,6 +576,33 @@ class _Canon(ast.NodeTransformer):
                 if not done_:
                     fu.append(st)
             out = fu
+        # S48 loop rotation:  while True: x = F(); if x is None: return R | break; BODY   (+ `return R` after the loop)
+        #                  ->  x = F(); while x is not None: BODY; x = F()              (BODY has no `continue`)
+        q48 = []
+        for idx48, st in enumerate(out):
+            if isinstance(st, ast.While) and isinstance(st.test, ast.Constant) and st.test.value is True and not st.orelse and len(st.body) >= 3 \
+                    and isinstance(st.body[0], ast.Assign) and len(st.body[0].targets) == 1 and isinstance(st.body[0].targets[0], ast.Name) \
+                    and isinstance(st.body[1], ast.If) and not st.body[1].orelse and len(st.body[1].body) == 1:
+                x_ = st.body[0].targets[0].id
+                g_ = st.body[1]
+                exit_ = g_.body[0]
+                nxt_ = out[idx48 + 1] if idx48 + 1 < len(out) else None
+                body_ = st.body[2:]
+                ok_exit = isinstance(exit_, ast.Break) or (isinstance(exit_, ast.Return) and isinstance(nxt_, ast.Return) and U(exit_) == U(nxt_))
+                if U(g_.test) == '%s is None' % x_ and ok_exit and ('%s is not None' % x_) in self.tests \
+                        and not any(isinstance(y, ast.Continue) for b_ in body_ for y in ast.walk(b_)) \
+                        and not any(isinstance(y, ast.Name) and y.id == x_ and isinstance(y.ctx, ast.Store) for b_ in body_ for y in ast.walk(b_)):
+                    import copy as _c48
+                    first = st.body[0]
+                    again = _c48.deepcopy(first)
+                    new_loop = ast.While(test=ast.Compare(left=ast.Name(id=x_, ctx=ast.Load()), ops=[ast.IsNot()], comparators=[ast.Constant(value=None)]),
+                                         body=body_ + [again], orelse=[])
+                    _relocate(new_loop, st)
+                    self.steps.append('S48 loop rotated')
+                    q48.extend([first, new_loop])
+                    continue
+            q48.append(st)
+        out = q48
         # S44 `X[i:i + 1] = P`  ->  `del X[i]; X[i:i] = P`   (the reference function deletes and splices; i is in range where the
         # reference form would not raise)
         q44 = []
